@@ -36,7 +36,7 @@ from mc import boundx
 from mc import c17_ilv as ilv
 from mc import c17_seq as seq
 
-BUDGET = {'quick': 80, 'thorough': 600}
+BUDGET = {'quick': 240, 'thorough': 600}
 
 # The service keeps its state in insertion-ordered dicts and lists; nothing
 # iterates a set or sorts by hash (fakezk: dicts only).
